@@ -117,6 +117,18 @@ example : cfgA.effective ≠ cfgB.effective := by
   rw [e1, e2] at h2
   exact absurd (J.str.inj (Option.some.inj h2)) (by decide)
 
+/-- Why F09 needed a different COMPOSITION rather than a better hash: with the historical
+    composition — fold the hashes of the property values with any commutative, associative
+    operation, names not included — the exchanged-values pair collides for every hash function. -/
+theorem C06_value_fold_collides {κ : Type} (op : κ → κ → κ) (comm : ∀ a b, op a b = op b a)
+    (assoc : ∀ a b c, op (op a b) c = op a (op b c)) (h : Option J → κ) (init : κ) :
+    valueFoldKey op h init Gen.serialFields cfgA = valueFoldKey op h init Gen.serialFields cfgB := by
+  simp (config := { decide := true }) only [valueFoldKey, Gen.serialFields, Config.get, cfgA, cfgB,
+    List.foldl, lookup_cons_eq, List.lookup_nil, if_true, if_false]
+  haveI : Std.Associative op := ⟨assoc⟩
+  haveI : Std.Commutative op := ⟨comm⟩
+  ac_rfl
+
 /-- … and an added `verbose` satisfies the hypotheses of C06_deterministic -/
 example : (∀ n ∈ hashedNames, cfgA.get n = cfgA'.get n) ∧ cfgA.src = cfgA'.src := by
   refine ⟨fun n hn => ?_, rfl⟩
